@@ -96,15 +96,18 @@ def box_int(x0: int, y0: int, z0: int, x1: int, y1: int, z1: int, qx: int, qy: i
         intruder = Agent("intruder", m)
         intruder.add_component(PositionComponent(intruder, m, qx, qy, qz))
         main.agents[intruder.id] = intruder
-    ags = [_put(m, env, "a0", x0, y0, z0)]
-    where = [(x0, y0, z0)]                 # the oracle uses the positions the agents were given, not a read-back
+    # (identifiers whose alphabetical order is NOT the joining order: the answer is in joining order)
+    ags, where = [], []                    # the oracle uses the positions the agents were given, not a read-back
+    if nag >= 1:
+        ags.append(_put(m, env, "wolf", x0, y0, z0))
+        where.append((x0, y0, z0))
     if nag >= 2:
-        ags.append(_put(m, env, "a1", x1, y1, z1))
+        ags.append(_put(m, env, "sheep", x1, y1, z1))
         where.append((x1, y1, z1))
     if nag >= 3:
         # a third agent at one of four concrete positions (join order and independence of the per-agent decisions)
         tx, ty, tz = hx.P['third']
-        ags.append(_put(m, env, "a2", tx, ty, tz))
+        ags.append(_put(m, env, "grass", tx, ty, tz))
         where.append((tx, ty, tz))
     got = env.get_agents_at(qx, qy, qz, leeway=lw, x_leeway=lx, y_leeway=ly, z_leeway=lz)
     exp = []
@@ -115,7 +118,7 @@ def box_int(x0: int, y0: int, z0: int, x1: int, y1: int, z1: int, qx: int, qy: i
         hx.reach('none')
     if 0 < len(exp) < len(ags):
         hx.reach('some')
-    if len(exp) == len(ags):
+    if len(exp) == len(ags) and len(ags) > 0:
         hx.reach('all')
     if not hx.same_seq(got, exp):
         return hx.end(hx.fail("agents in the leeway box", got=[a.id for a in got], exp=[a.id for a in exp],
@@ -257,6 +260,7 @@ def obligations(tier):
              {"world": "space", "n": 1, "axes": "xy"}]
     parts += [{"world": "free", "n": 3, "axes": "x", "third": t} for t in ([0, 0, 0], [5, 0, 0], [-3, 0, 0], [5, 1, 0])]
     parts += [{"world": "free", "n": 1, "axes": "xy", "class_pos": True}]
+    parts += [{"world": w, "n": 0, "axes": "xy"} for w in ("free", "grid", "space")]       # a world that holds no agent (yet / any more)
     parts += [{"world": "free", "n": 2, "axes": "x", "nested": True}, {"world": "grid", "n": 1, "axes": "xy", "nested": True},
               {"world": "free", "n": 2, "axes": "x", "detached": True}, {"world": "grid", "n": 1, "axes": "xy", "detached": True}]
     if tier != "quick":
@@ -264,7 +268,7 @@ def obligations(tier):
     W = (2, 3, 10) if tier == "quick" else (1, 2, 3, 4, 7, 10)
     obs = [
         X("box_int", box_int, parts=parts, labels=("none", "some", "all"),
-          labels_for=lambda p: ("none", "all") if p["n"] == 1 else ("none", "some", "all"), timeout=1800, encoded=enc),
+          labels_for=lambda p: ("none",) if p["n"] == 0 else ("none", "all") if p["n"] == 1 else ("none", "some", "all"), timeout=1800, encoded=enc),
         X("after_move", after_move, labels=("removed", "found"), timeout=600, encoded=enc + (SpaceWorld.move, SpaceWorld.remove_agent)),
         X("after_move_to", after_move_to, parts=[{"world": "space"}, {"world": "grid"}], labels=("moved", "rejected", "found"), timeout=600,
           encoded=enc + (SpaceWorld.move_to,), bounds={"world": "10x7 continuous / 6x5 grid, 2 agents", "start, target, query point, leeway": "all ints"}),
